@@ -3,6 +3,7 @@ from tsg.facts import DB, strip, txt, callee, call_args, call_object, walk, cons
 from tsg.iotokens import Tokenizer, normalize, compare, render, field_in
 from tsg.typestate import member_writes, member_of, must_pass_after
 from tsg.flow import is_reachable, cond_edges_dominating
+from tsg.typestate import must_pass_before
 from tsg.build import AnalysisBroken
 
 GRIDS = ["Global", "Sequence", "LocalPolynomial", "Wavelet", "Fourier"]
@@ -396,6 +397,23 @@ def run(chk):
                    "" if ok else "the order in which the writer walks the list cannot be established" if direction == "unknown" else "after write + read the list is in the opposite order: ties between equally weighted tensors are broken differently and a second write differs",
                    "reverse on exactly one side")
     chk.floor("C06-D8.listorder", nlist, 2, "serialised forward_list element types (both modes)")
+
+    # ------------------------------------------------------------------ D5b order of configuration and rebuild
+    chk.rule("C06-D5.order", "a reader configures the one dimensional rule of the restored grid (updateOrder with the restored order) before it rebuilds anything that is computed from that "
+                             "rule (interpolation matrix, coefficients): a cache built with the default rule survives until the next load because its size still matches")
+    nord = 0
+    for rd in [f for fs_ in db.load_all().values() for f in fs_ if "GridReaderVersion5" in f.key and short(f.name) == "read"]:
+        cfgs = [c for c in rd.calls() if (callee(c) or "").endswith("::updateOrder")]
+        builds = [c for c in rd.calls() if (callee(c) or "").endswith(("::buildInterpolationMatrix", "::recomputeCoefficients"))]
+        if not cfgs and not builds:
+            continue
+        for b in builds:
+            nord += 1
+            chk.saw(rd)
+            ok = bool(cfgs) and bool(must_pass_before(rd, b, lambda x: any(x is c for c in cfgs)))
+            chk.ob("C06-D5.order", rd.key, "%s runs after the rule is configured" % short(callee(b)), ok, rd.loc(b),
+                   "" if ok else "the rebuild uses the rule of the default order: weight queries on the restored grid use a matrix of another basis until values are loaded again")
+    chk.floor("C06-D5.order", nord, 2, "rebuild calls in readers that also configure the rule")
 
     # ------------------------------------------------------------------ D9 counts the reader assumes
     chk.rule("C06-D9.counts", "a 2-D member that the reader restores with a strip count taken from the restored points is written only when it holds exactly that many strips: "
